@@ -68,7 +68,23 @@ def _consults_owner_of(t, new, conv) -> bool:
     return False
 
 
-def mentions_converter_knowledge(t, conv_terms) -> bool:
+def _all_names_call(t) -> bool:
+    """converter.get_prefixes(include_synonyms=True): every CURIE-side name the converter knows."""
+    return op(t) == "call" and callee_name(t) == "get_prefixes" and (is_const(dict(t[3]).get("include_synonyms"), True) or (bool(t[2]) and is_const(t[2][0], True)))
+
+
+def _canonical_names_call(t) -> bool:
+    return op(t) == "call" and callee_name(t) == "get_prefixes" and not _all_names_call(t)
+
+
+def mentions_converter_knowledge(t, conv_terms, s=None) -> bool:
+    if s is not None:
+        # a list the function filled under a test of the converter's knowledge (a pre-filter of the pairs)
+        for x in subterms(t):
+            if op(x) == "new" and x[1] == "list":
+                for ev, ctx in s.mutations_of(x):
+                    if ev.kind == "expr" and callee_name(ev.a) in ("append", "extend", "add") and any(g.kind == "guard" and g.b is True and mentions_converter_knowledge(g.a, conv_terms) for g in ctx.guards):
+                        return True
     for x in subterms(t):
         if op(x) == "attr" and x[2] in KNOWLEDGE and x[1] in conv_terms:
             return True
@@ -138,7 +154,7 @@ def run_setalg(cx: Cx, ob: Ob, want: str) -> None:
                 ob.violate(fn.qualname, where(fn, line), f"remap_curie_prefixes: after the update the canonical prefix is `{show(alg.canonical_term())[:40]}`, not `new`", detail="canonical")
             if want == "handover" and loses_old:
                 branch = [g for g in guards if g.b is True and any(x == old for x in subterms(g.a))]
-                just = [g for g in branch if mentions_converter_knowledge(g.a, conv_terms) and not (op(g.a) == "cmp" and is_const(g.a[3], None))]
+                just = [g for g in branch if mentions_converter_knowledge(g.a, conv_terms, s) and not (op(g.a) == "cmp" and is_const(g.a[3], None))]
                 if not just:
                     ob.violate(
                         fn.qualname,
@@ -247,10 +263,19 @@ def d5(cx: Cx, ob: Ob) -> None:
                 return ("N", False)
             if any(y == old for y in subterms(x)):
                 return ("U", True)
-        if op(a) == "cmp" and a[1] == "in" and a[2] == old and ((op(a[3]) == "attr" and a[3][2] in ("synonym_to_prefix", "prefix_map")) or callee_name(a[3]) == "get_prefixes"):
+        if op(a) == "cmp" and a[1] == "in" and a[2] == old and ((op(a[3]) == "attr" and a[3][2] in ("synonym_to_prefix", "prefix_map")) or _all_names_call(a[3])):
             return ("U", False)
         if op(a) == "cmp" and a[1] in ("==", "is") and ((a[2] in recs and lookup_of_new(a[3])) or (a[3] in recs and lookup_of_new(a[2]))):
             return ("S", True)
+        if op(a) == "cmp" and a[1] == "==":
+            # the owner's canonical prefix compared with the canonical prefix of old's record (canonical prefixes are unique)
+            for x, y in ((a[2], a[3]), (a[3], a[2])):
+                if op(x) == "attr" and x[2] == "prefix" and lookup_of_new(x[1]):
+                    canon_old = (op(y) == "call" and callee_name(y) in ("get", "standardize_prefix", "__getitem__") and y[2][:1] == (old,)) or (op(y) == "item" and y[2] == old) or (op(y) == "attr" and y[2] == "prefix" and y[1] in recs)
+                    if canon_old:
+                        return ("S", True)
+                    if y == old:
+                        return ("S-raw", True)
         if op(a) == "cmp" and a[1] in ("==", "in") and a[2] == new and any(y in recs for y in subterms(a[3])):
             return ("S", True)  # `new` is one of the record's own names
         if op(a) == "cmp" and a[1] == "==" and a[3] == new and any(y in recs for y in subterms(a[2])):
@@ -268,9 +293,55 @@ def d5(cx: Cx, ob: Ob) -> None:
         ob.undecide("remap_curie_prefixes: too many distinct tests in the main loop")
         return
     roles = {a: classify(a) for a in atoms}
+    for a, (r, _) in list(roles.items()):
+        if r == "S-raw":
+            ob.violate(
+                fn.qualname,
+                fn.where,
+                f"the clash test compares the owner's canonical prefix with the raw key `old` (`{show(a)[:60]}`): when `old` is a synonym the record is never recognised as the owner of its own names, and remapping one synonym onto another synonym of the same record is skipped as a clash",
+                witness="record a with synonyms x, y and remapping {'x': 'y'}: the record keeps the name a",
+                detail="clash-own-synonym",
+            )
+            roles[a] = ("S", True)
     if any(r == "?" for r, _ in roles.values()):
         ob.undecide("remap_curie_prefixes tests the owner of the new prefix in an unrecognised way: " + "; ".join(show(a)[:60] for a, (r, _) in roles.items() if r == "?"))
     seen_unknown = any(r == "U" for r, _ in roles.values())
+    # the unknown-old filter may have been hoisted: the main loop runs over a list that an earlier loop filled
+    # with exactly the pairs whose old prefix the converter knows
+    src = lp.b
+    if not seen_unknown and op(src) == "new" and src[1] == "list":
+        for ev, ctx in s.mutations_of(src):
+            if ev.kind != "expr" or callee_name(ev.a) != "append" or not ctx.loops:
+                continue
+            pre = ctx.loops[-1]
+            if op(pre.a) != "tuple" or len(pre.a[1]) != 2:
+                continue
+            pold = pre.a[1][0]
+            for g in ctx.guards:
+                if g.kind != "guard" or not (op(g.a) == "cmp" and g.a[1] == "in" and g.a[2] == pold):
+                    continue
+                if g.b is True and ((op(g.a[3]) == "attr" and g.a[3][2] in ("synonym_to_prefix", "prefix_map")) or _all_names_call(g.a[3])):
+                    seen_unknown = True
+                    ob.site(f"{where(fn, g.line)} {fn.qualname}", "unknown-old filter hoisted into a pre-pass")
+                elif g.b is True and _canonical_names_call(g.a[3]):
+                    seen_unknown = True
+                    ob.violate(
+                        fn.qualname,
+                        where(fn, g.line),
+                        "the pairs are pre-filtered by `old in converter.get_prefixes()`, i.e. by CANONICAL prefixes only: a pair keyed by a synonym is treated as unknown and silently skipped",
+                        witness="record a with synonym x, remapping {'x': 'new'}: nothing is renamed",
+                        detail="unknown-test-canonical-only",
+                    )
+    for a in atoms:
+        if op(a) == "cmp" and a[1] == "in" and a[2] == old and _canonical_names_call(a[3]):
+            seen_unknown = True
+            ob.violate(
+                fn.qualname,
+                fn.where,
+                "the old prefix is looked up with `old in converter.get_prefixes()`, i.e. among CANONICAL prefixes only: a pair keyed by a synonym is treated as unknown and silently skipped",
+                witness="record a with synonym x, remapping {'x': 'new'}: nothing is renamed",
+                detail="unknown-test-canonical-only",
+            )
     seen_clash = any(r == "N" for r, _ in roles.values())
     has_self = any(r == "S" for r, _ in roles.values())
     reported = set()
